@@ -75,6 +75,11 @@ theorem module_tree_mirrors_packages : tree.all (fun p => p.1 == p.2) = true := 
 theorem type_urls_canonical :
     typeUrls.all (fun e => e.1 == "/" ++ e.2.1 ++ "." ++ e.2.2) = true := by decide +kernel
 
+/-- no field of the bindings carries a prost attribute outside the wire model the theorems above are about (such as
+`default = ".."`, which gives a proto3 field proto2 default semantics: the value named is then encoded as absent and
+an absent field decoded as that value) -/
+theorem no_unmodelled_attributes : unmodelledAttrs.isEmpty = true := by decide +kernel
+
 /-- the tables are not empty (non-vacuity of the table theorems) -/
 theorem tables_nonempty : 1000 < schema.length ∧ 500 < refSchema.length ∧ 100 < tree.length
     ∧ 20 < typeUrls.length := by decide +kernel
